@@ -5,7 +5,7 @@ from ..engine import rule
 from ..db import (walk, peel, peel_casts, render, callee, path_ends, short_path, is_call, call_args, lit_int,
                   diverges, exit_kind, path_conditions, atoms)
 from ..guards import guarded_exits, eval3, bound_cmp_evaluator, mentions, is_call_to, cmp_atom, holds
-from ..origins import origins, field_writes, unwrap_try, derived_fns, with_let_inits
+from ..origins import origins, field_writes, unwrap_try, derived_fns, with_let_inits, owners
 from .. import cg
 
 META = {
@@ -65,6 +65,30 @@ def var_side(cond, is_bound):
     return None
 
 
+def _bound_views(db, f, cond):
+    """(attributed fn, axis, is_bound predicate) for every way `cond` compares with a matrix dimension: directly (num_left()/num_right()
+    in the condition) or through a parameter of a helper whose call sites pass the dimension — then the instance is attributed to each such caller"""
+    from ..origins import index as oindex
+    for axis, suffix in NUM.items():
+        isb = is_call_to(suffix)
+        if mentions(cond, isb):
+            yield f, axis, isb
+    ix = oindex(db)
+    bds = ix.bindings(f)
+    plids = {}
+    for n, _ in walk(cond):
+        if n.get("k") == "Path" and n.get("res") == "local" and bds.get(n["lid"], (None,))[0] == "param":
+            plids[n["lid"]] = bds[n["lid"]][1]
+    for lid, idx in plids.items():
+        for cf, cn in ix.callsites.get(f.key, []):
+            args = call_args(cn)
+            if idx >= len(args):
+                continue
+            for axis, suffix in NUM.items():
+                if mentions(args[idx], is_call_to(suffix)):
+                    yield cf, axis, (lambda x, lid=lid: isinstance(x, dict) and x.get("k") == "Path" and x.get("res") == "local" and x.get("lid") == lid)
+
+
 @rule("C20.bounds", "every rejecting comparison against num_left()/num_right() rejects exactly x>=n (evaluated at "
                     "n-1,n,n+1; no narrowing cast on the compared value; negative values rejected); check_cost "
                     "rejects exactly values outside [i16::MIN, i16::MAX]")
@@ -72,10 +96,8 @@ def bounds(db, ctx):
     n_inst = 0
     for f in lib_fns(db):
         for ifn, cond, pol, ek, ps in guarded_exits(f.hir):
-            for axis, suffix in NUM.items():
-                isb = is_call_to(suffix)
-                if not mentions(cond, isb):
-                    continue
+            for af, axis, isb in _bound_views(db, f, cond):
+                suffix = NUM[axis]
                 x = var_side(cond, isb)
                 vals = []
                 for p in (-1, 0, 1):
@@ -90,10 +112,10 @@ def bounds(db, ctx):
                     signed_ok = any(_rejects_negative(c2, pol2) for _, c2, pol2, ek2, _ in guarded_exits(f.hir))
                 ok = vals == [False, True, True] and ek == "err" and not narrow and signed_ok
                 n_inst += 1
-                ctx.ob("%s|%s|%s" % (f.short(), "num_" + axis, xs), ok,
-                       "%s: guard `%s` (%s-exit when %s) must reject x=n and x=n+1 and accept x=n-1 against %s(); "
+                ctx.ob("%s|%s|%s" % (af.short(), "num_" + axis, xs), ok,
+                       "%s: guard `%s`%s (%s-exit when %s) must reject x=n and x=n+1 and accept x=n-1 against %s(); "
                        "evaluated rejects(n-1,n,n+1)=%s%s%s" % (
-                           f.short(), render(cond), ek, "true" if pol else "false", suffix.split("::")[-1], vals,
+                           af.short(), render(cond), "" if af is f else " in helper %s" % f.short(), ek, "true" if pol else "false", suffix.split("::")[-1], vals,
                            ("; narrowing casts before the comparison: %s" % narrow) if narrow else "",
                            "" if signed_ok else "; signed value without a `< 0` rejection"),
                        fn=f, site=ifn.get("sp"),
@@ -271,7 +293,7 @@ def tuple_pos(db, f, expr, depth=2):
         if not bd:
             return None
         if bd[0] in ("for", "let", "arm", "closure-param"):
-            pat = bd[2] if bd[0] != "closure-param" else None
+            pat = bd[2] if bd[0] != "closure-param" else (bd[2].get("params") or [None] * 9)[bd[1]]
             while isinstance(pat, dict) and pat.get("k") in ("Ref", "Box"):
                 pat = pat["pat"]
             if isinstance(pat, dict) and pat.get("k") == "Tuple":
@@ -486,10 +508,12 @@ def no_panic_load(db, ctx):
                     continue  # implicit (slice index etc.) — handled by the tainted-index rules
                 what = mac
             allowed = None
+            own = f
             for (fn_suffix, w), reason in LOAD_ALLOW.items():
-                if f.short().endswith(fn_suffix) and w == what:
-                    allowed = reason
-            ctx.ob("%s|%s" % (f.short(), what), allowed is not None,
+                for o in owners(db, f):
+                    if o.short().endswith(fn_suffix) and w == what and allowed is None:
+                        allowed, own = reason, o
+            ctx.ob("%s|%s" % (own.short(), what), allowed is not None,
                    "%s: %s at %s reachable from dictionary loading via %s%s" % (
                        f.short(), what, s["sp"], " → ".join(g.path(entries, k, stop) or []),
                        (" — allowed: " + allowed) if allowed else " — not in the allow-table"),
